@@ -378,7 +378,7 @@ class C16(Property):
             k = rng.choice(kinds)
             c = getattr(self, "_gen_" + k)(rng, tier)
             # a second instance of the same kind driven alongside (state shared between instances)
-            if c["kind"] in ("window", "safemap", "queue", "ring", "set", "cache") and rng.random() < 0.15:
+            if c["kind"] in ("window", "safemap", "queue", "ring", "set", "cache", "cachew") and rng.random() < 0.15:
                 c["twin"] = True
             cases.append(c)
         # SafeMap histories through several generation switches (tens of thousands of primitive
